@@ -5,6 +5,8 @@ from fractions import Fraction
 
 import numpy as np
 
+from .. import scenarios as SC
+
 from .. import weaver_common as W
 from ..core import err_kind
 
@@ -164,6 +166,8 @@ def gen(rng):
 
 
 def cases(rng, tier):
+    for _sc in range(8 if tier != "thorough" else 80):
+        yield SC.gen(rng, ['nan_refused'][_sc % 1])
     n_ = {"quick": 400, "thorough": 4000}.get(tier, 250)
     # every name of the library's own namespace that is not a documented method, once
     for name in harvested_methods():
@@ -176,6 +180,8 @@ def cases(rng, tier):
 
 
 def run_impl(c):
+    if isinstance(c, dict) and "scenario" in c:
+        return SC.run(c)
     # resolve the run-time dependent arguments of the invalid operation
     for op in c["ops"]:
         if op["op"] == "trunc_v" and op.get("lk") in ("raw", "rawratio"):
@@ -238,10 +244,14 @@ def run_with_fp(c):
 
 
 def request(c):
+    if isinstance(c, dict) and "scenario" in c:
+        return []
     return c["_lines"]
 
 
 def compare(c, io, mo):
+    if isinstance(c, dict) and "scenario" in c:
+        return None
     if c.get("dataset") is not None:
         st = io["steps"][0]
         return None if mo[0] == f"ERR {st.get('err')}" else f"dataset {c['dataset']!r}: impl {st}, model {mo[0]}"
@@ -249,6 +259,8 @@ def compare(c, io, mo):
 
 
 def oracle(c, io):
+    if isinstance(c, dict) and "scenario" in c:
+        return io.get("finding")
     steps = io["steps"]
     cls = c["cls"]
     bad = W.accepted_invalid(io)
@@ -291,6 +303,8 @@ def oracle(c, io):
 
 
 def tags(c, io, mo):
+    if isinstance(c, dict) and "scenario" in c:
+        return ["scenario=" + c["scenario"]]
     t = [f"class={c['cls']}", f"history={len(c['ops'])}"]
     for s in io["steps"]:
         if "err" in s:
@@ -301,6 +315,8 @@ def tags(c, io, mo):
 
 
 def nontrivial_key(c, io, mo):
+    if isinstance(c, dict) and "scenario" in c:
+        return c
     if len(c["ops"]) >= 2:
         return {"cls": c["cls"], "x": c["x"], "ops": [{k: v for k, v in o.items() if not k.startswith("_")} for o in c["ops"]],
                 "queries": c.get("queries")}
